@@ -569,6 +569,11 @@ impl<R: BufRead> LosslessDecoder<R> {
                 let length_symbol = code - 256;
                 let length = Self::get_copy_distance(&mut self.bit_reader, length_symbol)?;
 
+                // A length symbol with its extra bits can use 25 bits and a distance symbol with
+                // its extra bits 33: more than the 56 bits `fill` guarantees.
+                if self.bit_reader.nbits < 33 {
+                    self.bit_reader.fill()?;
+                }
                 let dist_symbol = tree[DIST].read_symbol(&mut self.bit_reader)?;
                 let dist_code = Self::get_copy_distance(&mut self.bit_reader, dist_symbol)?;
                 let dist = Self::plane_code_to_distance(width, dist_code);
